@@ -140,7 +140,8 @@ def simplify_single(record):
 
 
 def base_record(prop, seed, run, tier):
-    return {'property': prop, 'seed': seed, 'run': run, 'tier': tier, 'debug': True, 'clients': [], 'ops': []}
+    return {'property': prop, 'seed': seed, 'run': run, 'tier': tier, 'debug': True, 'clients': [], 'ops': [],
+            'alias_objects': stream(seed, prop, run, 'alias').random() < 0.15}
 
 
 def seam_break(ev):
